@@ -37,8 +37,18 @@
 
 // TODO: Other sizes? Does anyone need more than 5 slots?
 
+#[cfg(not(sighook_verif))]
 use std::cell::UnsafeCell;
+#[cfg(not(sighook_verif))]
 use std::sync::atomic::{AtomicU16, Ordering};
+#[cfg(sighook_verif)]
+use libc::vshim::atomic::{AtomicU16, Ordering};
+#[cfg(sighook_verif)]
+use libc::vshim::cell::UnsafeCell;
+
+#[cfg(sighook_verif)]
+#[path = "/verif/shim/channel_api.rs"]
+pub mod verif_api;
 
 const SLOTS: usize = 5;
 const BITS: u16 = 3;
